@@ -1,6 +1,6 @@
 """C13 - the failure report is empty only for identical text and shows the true edit."""
 import itertools, random, re
-import core, suites, findings
+import core, suites, findings, collide
 from core import World, Line, hx
 from gen import Gen
 from suites import run_suite
@@ -61,8 +61,27 @@ def check_opcodes(a, b, full, groups):
     return None
 
 
-def difflib_suite(ctx, binary, name, pairs):
-    ops = ['dl %s %s' % (a or '-', b or '-') for a, b in pairs]
+ALPHABET = [chr(c) for c in list(range(48, 58)) + list(range(65, 91)) + list(range(97, 123)) + list(range(0x100, 0x17f)) + list(range(0x400, 0x4ff))]
+
+
+def difflib_suite(ctx, binary, name, pairs, lines=False):
+    """lines=False: a, b are strings, one element per letter.  lines=True: a, b are lists of whole
+    lines (byte strings) given to the real package as they are; the difflib algorithm only ever asks
+    whether two elements are EQUAL, so the model is asked about the same sequences with every distinct
+    line renamed to a distinct letter - an implementation that compares lines by anything coarser
+    than their bytes (a hash, a prefix, a folded form) disagrees with it."""
+    if lines:
+        enc = lambda x: ','.join((l.hex() or '~') for l in x) if x else '-'
+        ops = ['dll %s %s' % (enc(a), enc(b)) for a, b in pairs]
+        mops = []
+        for a, b in pairs:
+            ren = {}
+            for l in list(a) + list(b):
+                ren.setdefault(l, ALPHABET[len(ren)])
+            mops.append('dl %s %s' % (''.join(ren[l] for l in a) or '-', ''.join(ren[l] for l in b) or '-'))
+    else:
+        ops = ['dl %s %s' % (a or '-', b or '-') for a, b in pairs]
+        mops = ops
     rc, impl, tail = core.run_raw(ctx, binary, 'TestVerifDifflib', ops)
     st = ctx.stats['suites'].setdefault(name, dict(pairs=0, corr_mismatch=0, oracle_fail=0))
     st['pairs'] += len(pairs)
@@ -72,7 +91,7 @@ def difflib_suite(ctx, binary, name, pairs):
         return
     model = None
     if ctx.model:
-        mrc, model = core.run_model(ctx, '\n'.join(ops) + '\n')
+        mrc, model = core.run_model(ctx, '\n'.join(mops) + '\n')
         if mrc != 0 or len(model) != len(ops):
             ctx.add_obl('B.corr ' + name, False, 'model driver failed on the difflib ops')
             model = None
@@ -83,7 +102,7 @@ def difflib_suite(ctx, binary, name, pairs):
             ctx.add_obl('B.corr ' + name, False, 'unparsable line ' + impl[k][:100])
             return
         if a != b or True:
-            ctx.stats['nontrivial'].add(impl[k][:200] + a[:50] + '|' + b[:50])
+            ctx.stats['nontrivial'].add(impl[k][:200] + ops[k][:120])
         msg = check_opcodes(list(a), list(b), parse_ops(m.group(1)), parse_ops(m.group(2)))
         if msg and len(ctx.violations) < 5:
             st['oracle_fail'] += 1
@@ -195,7 +214,44 @@ def report_oracle(e, r):
     return f
 
 
-def text_pairs(g, n):
+def collision_text_pairs(r, thorough=False):
+    """texts that differ ONLY in lines that a coarser-than-bytes comparison takes for equal (hash
+    collisions, equal prefixes, case/whitespace/normalisation variants, see collide.py): alone, inside
+    short documents, inside documents long enough for hunk headers and for the popular-line purge"""
+    out = [(a, b) for _, a, b in collide.deterministic_documents(r, per_class=6 if thorough else 2)]
+    ps = collide.pairs()
+    for _ in range(120 if thorough else 10):
+        p = r.choice(ps)
+        n = r.choice([30, 210, 260])
+        out.append(collide.document_pair(r, p, n, None, repeats=r.choice([1, 1, 2, 5])))
+    # both lines of a pair present on both sides, in swapped order / as an insertion next to its twin
+    for p in (ps if thorough else r.sample(ps, 40)):
+        a, b = collide.variant(r, p)
+        out.append((b'\n'.join([a, b, b'tail']), b'\n'.join([b, a, b'tail'])))
+        out.append((b'\n'.join([b'head', a, b'tail']), b'\n'.join([b'head', a, b, b'tail'])))
+    return out
+
+
+def collision_line_seqs(r, thorough=False):
+    """the same vocabulary as sequences of whole lines for the difflib package itself"""
+    out = []
+    for p in collide.pairs():
+        for _ in range(3 if thorough else 1):
+            a, b = collide.variant(r, p)
+            out.append(([a], [b]))
+            out.append(([b'x', a, b'y'], [b'x', b, b'y']))
+            out.append(([a, b], [b, a]))
+            out.append(([a, a, b], [b, b, a]))
+            out.append(([b'x', a], [b'x', a, b]))
+            ta, tb = collide.document_pair(r, p, r.choice([12, 40]), None, repeats=r.choice([1, 2, 3]))
+            out.append((ta.split(b'\n'), tb.split(b'\n')))
+    for _ in range(60 if thorough else 8):
+        ta, tb = collide.document_pair(r, r.choice(collide.pairs()), r.choice([205, 240, 320]), None, repeats=r.choice([1, 3, 6]))
+        out.append((ta.split(b'\n'), tb.split(b'\n')))
+    return out
+
+
+def text_pairs(g, n, thorough=False):
     r = g.r
     out = []
     for _ in range(n):
@@ -206,6 +262,13 @@ def text_pairs(g, n):
         b = list(a)
         for _ in range(r.choice([0, 1, 1, 2, 3])):
             op = r.random()
+            if b and r.random() < 0.3:
+                # swap a line for its twin under a hash / prefix / case / whitespace shortcut (collide.py)
+                i = r.randrange(len(b))
+                t = collide.partner(r, b[i])
+                if t:
+                    b[i] = t[0]
+                    continue
             if op < 0.35 and b:
                 b[r.randrange(len(b))] = g.line()
             elif op < 0.6:
@@ -219,6 +282,7 @@ def text_pairs(g, n):
         if r.random() < 0.2:
             eb += b'\n'
         out.append((ea, eb))
+    out += collision_text_pairs(r, thorough)
     # texts that differ only in the NUMBER of final newlines (and edits next to such an ending)
     for base in (b'hello', b'a\nb', b'', b'x\n\ny', b'{\n "k": 1\n}'):
         for i in range(4):
@@ -251,8 +315,9 @@ def run(ctx):
                 b[i:i + rnd.randint(0, 3)] = [rnd.choice(alpha) for _ in range(rnd.randint(0, 3))]
             longp.append((a, ''.join(b)))
         difflib_suite(ctx, binary, 'difflib.long-popular', longp)
+        difflib_suite(ctx, binary, 'difflib.colliding-lines', collision_line_seqs(rnd, ctx.tier == 'thorough'), lines=True)
     g = Gen(ctx.seed * 1000003 + 131)
-    pairs = text_pairs(g, 250 if ctx.tier == 'quick' else 6000)
+    pairs = text_pairs(g, 250 if ctx.tier == 'quick' else 6000, ctx.tier == 'thorough')
     worlds = []
     for i, (e, r) in enumerate(pairs):
         w = World('rep-%d' % i)
@@ -262,7 +327,8 @@ def run(ctx):
     run_suite(ctx, 'diff.report', worlds, known=None, chunk=500)
     # colours on: emptiness only (the ANSI layout and the inline rune diff are not modelled)
     cw = []
-    for i, (e, r) in enumerate(pairs[: len(pairs) // 2]):
+    gc = Gen(ctx.seed * 1000003 + 132)
+    for i, (e, r) in enumerate(pairs[: len(pairs) // 2] + collision_text_pairs(gc.r, ctx.tier == 'thorough')):
         w = World('repc-%d' % i)
 
         def exp(line, raw, ww, e=e, r=r):
